@@ -186,6 +186,8 @@ def run(ctx):
             except Exception:
                 fails = True
             res.findings_seen.append((f["id"], fails, "%s: %s [%s]" % (f["id"], f["what"], f["input"])))
+    from adapters import strlib
+    strlib.validate(ctx, res, routines=('upper', 'lower', 'rpartition', 'join', 'split'))
     res.assumptions = ["msdparser.parse_msd is the trusted base the rules are applied to",
                        "files are read in text mode with universal newlines: for file entry points the expected object is computed from the newline-translated text",
                        "keys with non-ASCII cased letters are outside the modelled upper() and skipped (counted)"]
